@@ -2024,6 +2024,9 @@ fn do_render_node<T: Write, D: TextDecorator>(
 
     let size_estimate = tree.size_estimate.get().unwrap_or_default();
 
+    #[cfg(html2text_verif)]
+    verif::node_event(renderer, &tree);
+
     let pushed_style = PushedStyleInfo::apply(renderer, &tree.style);
 
     Ok(match tree.info {
@@ -2935,6 +2938,67 @@ where
 }
 
 mod ansi_colours;
+
+/// Trace hooks for verification (only with `--cfg html2text_verif`): one event per
+/// `do_render_node` call, carrying the kind of the node and a scalar projection of
+/// the renderer state at that point.  Off unless a recorder is installed.
+#[cfg(html2text_verif)]
+#[doc(hidden)]
+pub mod verif {
+    use crate::render::text_renderer::{TextDecorator, TextRenderer};
+    use crate::{RenderNode, RenderNodeInfo};
+    use std::cell::RefCell;
+
+    thread_local! {
+        static EVENTS: RefCell<Option<Vec<(&'static str, [i64; 17])>>> = const { RefCell::new(None) };
+    }
+
+    /// Start recording on this thread.
+    pub fn start() {
+        EVENTS.with(|e| *e.borrow_mut() = Some(Vec::new()));
+    }
+
+    /// Stop recording and return what was recorded.
+    pub fn take() -> Vec<(&'static str, [i64; 17])> {
+        EVENTS.with(|e| e.borrow_mut().take().unwrap_or_default())
+    }
+
+    pub(crate) fn node_event<D: TextDecorator>(renderer: &TextRenderer<D>, node: &RenderNode) {
+        EVENTS.with(|e| {
+            if let Some(v) = e.borrow_mut().as_mut() {
+                use RenderNodeInfo::*;
+                let kind = match node.info {
+                    Text(_) => "Text",
+                    Container(_) => "Container",
+                    Link(..) => "Link",
+                    Em(_) => "Em",
+                    Strong(_) => "Strong",
+                    Strikeout(_) => "Strikeout",
+                    Code(_) => "Code",
+                    Img(..) => "Img",
+                    Block(_) => "Block",
+                    Header(..) => "Header",
+                    Div(_) => "Div",
+                    BlockQuote(_) => "BlockQuote",
+                    Ul(_) => "Ul",
+                    Ol(..) => "Ol",
+                    Dl(_) => "Dl",
+                    Dt(_) => "Dt",
+                    Dd(_) => "Dd",
+                    Break => "Break",
+                    Table(_) => "Table",
+                    TableBody(_) => "TableBody",
+                    TableRow(..) => "TableRow",
+                    TableCell(_) => "TableCell",
+                    FragStart(_) => "FragStart",
+                    ListItem(_) => "ListItem",
+                    Sup(_) => "Sup",
+                };
+                v.push((kind, renderer.verif_probe()));
+            }
+        });
+    }
+}
 
 pub use ansi_colours::from_read_coloured;
 
